@@ -71,5 +71,7 @@ def run(ctx):
         v, _ = ev.call_function('helper.bech32_decode_address', [addr])
         exp = T.raw_op('BYTES', T.getitem(T.raw_op('BECH32DEC', T.slice_(addr, T.const(0), T.const(2)), addr), T.const(1)))
         same_term(ob, v, exp, 'bech32_decode_address decodes with the address\'s own two-character prefix', p.get_function('helper.bech32_decode_address').where)
-        users = [cs for cs in p.build_callgraph() if any(getattr(t, 'qual', '').endswith('bech32.encode') for t in cs.targets)]
-        ob.require(len(users) >= 2, 'address helpers encode through bech32.encode (which re-validates its output)', 'btc_hd_wallet/helper.py')
+        enc = p.get_function('bech32.encode')
+        for q in ('helper.h160_to_p2wpkh_address', 'helper.h256_to_p2wsh_address'):
+            ob.require(enc in p.reachable_from([p.get_function(q)]), '%s encodes through bech32.encode (which re-validates its output)'
+                       % q.split('.')[-1], p.get_function(q).where)
